@@ -34,10 +34,6 @@ impl<Req, Res, E> TimeoutFut<Req, Res, E> {
 pub fn timeout_at<Req, Res, E>(deadline: Instant, f: InnerFut<Req, Res, E>, clk: &Clock) -> (r: TimeoutFut<Req, Res, E>)
     ensures r.d.nanos == (if deadline.t >= clk.now@ { (deadline.t - clk.now@) as u128 } else { 0 })
 { unimplemented!() }
-#[verifier::external_body]
-pub fn sleep_until(deadline: Instant, clk: &Clock) -> (r: SleepFut)
-    ensures r.d.nanos == (if deadline.t >= clk.now@ { (deadline.t - clk.now@) as u128 } else { 0 })
-{ unimplemented!() }
 /// R17: the non-cancelling branch. `tokio::spawn(async move { B })` runs B in line (the detached task runs to completion:
 /// tokio, assumed) and `tokio::select!` is a nondeterministic choice between "the task's result has arrived" and "the timer fired".
 pub struct OneTx<Res, E> { pub p: core::marker::PhantomData<(Res, E)> }
